@@ -25,6 +25,7 @@ type absCmd struct {
 	Opt   string `json:"opt"`
 	Val   string `json:"val"`
 	Flag  bool   `json:"flag"`
+	Pk    bool   `json:"pk"`
 }
 
 type absItem struct {
@@ -48,6 +49,11 @@ type step struct {
 	ApiKey string   `json:"apikey,omitempty"` // api: concrete route key
 	Chunks [][]byte `json:"chunks,omitempty"` // item: reads / packets / bodies
 	End    string   `json:"end,omitempty"`    // item: eof | err
+	// cmd: names of well-formed metrics the generated rewriter / aggregation matches (degenerate-name classes);
+	// item of class rulematch: the names matched by the rules of the history so far (the child renders the
+	// lines when it runs them, with current timestamps)
+	Names []string `json:"names,omitempty"`
+	IsAgg bool     `json:"isagg,omitempty"` // cmd: the rule is an aggregation (its output appears at the next tick)
 }
 
 type concCase struct {
@@ -73,7 +79,10 @@ var badRegex = []string{`(`, `[a-`, `a{2,1}`, `(?P<n`, `\`, `*abc`, `a**`, `(?i`
 	`(?<!a)b`, `\1`, `a)`, `[z-a]`, `(?P<n>a)(?P<n>b)`, "\xff(", `++`}
 var funs = []string{"avg", "count", "delta", "derive", "last", "max", "min", "stdev", "sum"}
 
-type rnd struct{ *rand.Rand }
+type rnd struct {
+	*rand.Rand
+	nofilter bool // routes and destinations without prefix / regex filters (histories with degenerate-name rules)
+}
 
 func (r rnd) pick(s []string) string { return s[r.Intn(len(s))] }
 
@@ -240,7 +249,9 @@ func (r rnd) dest(c *absCmd, i int, deg bool) string {
 		}
 	}
 	if c.Rtype != "consistentHashing" && r.Intn(3) == 0 {
-		b.WriteString(" prefix=" + r.pick([]string{"s", "a", "servers", "st"}))
+		if pfx := r.pick([]string{"s", "a", "servers", "st"}); !r.nofilter {
+			b.WriteString(" prefix=" + pfx)
+		}
 	}
 	if deg {
 		switch {
@@ -264,7 +275,7 @@ func (r rnd) dest(c *absCmd, i int, deg bool) string {
 	if spool {
 		b.WriteString(" spool=true")
 	}
-	if r.Intn(4) == 0 {
+	if some := r.Intn(4) == 0; some || c.Pk {
 		b.WriteString(" pickle=true")
 	}
 	return b.String()
@@ -314,6 +325,9 @@ func (r rnd) matcherOpts(c *absCmd) string {
 	} else if r.Intn(4) == 0 {
 		s += " regex=" + r.pick(typicalRegex)
 	}
+	if r.nofilter && c.Opt != "routeregex" {
+		return ""
+	}
 	return s
 }
 
@@ -353,7 +367,9 @@ func (r rnd) addRoute(c *absCmd, key string) string {
 		tok, present := r.strTok(c.Val, "regex")
 		b.WriteString(tomlKV("regex", tok, present, true))
 	} else if r.Intn(3) == 0 {
-		b.WriteString("prefix = " + tomlStr(r.pick(typicalPrefix)) + "\n")
+		if pfx := r.pick(typicalPrefix); !r.nofilter {
+			b.WriteString("prefix = " + tomlStr(pfx) + "\n")
+		}
 	}
 	b.WriteString("destinations = [\n")
 	for _, d := range dests {
@@ -607,6 +623,110 @@ func (r rnd) addRewriter(c *absCmd) string {
 	}
 	b.WriteString(tomlKV("max", max, maxP, false))
 	return b.String()
+}
+
+// ------------------------------------------------- rules that produce degenerate metric names
+// (AdminOps!NameClasses).  The concretiser knows the regex it generates, so it also knows well-formed
+// metric names the rule matches entirely: these are what the child sends after the commands.
+
+type nameRule struct {
+	re     string
+	groups int
+	names  []string
+}
+
+var nameRules = []nameRule{
+	{`^servers\.(web|db)[0-9]+\.cpu\.(.*)$`, 2, []string{"servers.web01.cpu.user", "servers.db01.cpu.user", "servers.web02.cpu.system"}},
+	{`^stats\.timers\.(app|proxy|static)[0-9]+\.requests\.(.*)$`, 2, []string{"stats.timers.app1.requests.count", "stats.timers.proxy2.requests.upper_90"}},
+	{`^tmp\..*$`, 0, []string{"tmp.scratch", "tmp.a.b.c"}},
+	{`^.*$`, 0, []string{"a.b.c", "foo.bar.cpu", "collectd.localhost.load.shortterm", "stats.gauges.x"}},
+	{`^([a-z]+)\.([a-z]+)\.([a-z]+)$`, 3, []string{"a.b.c", "raw.abc.def", "foo.bar.cpu"}},
+	{`^collectd\.(localhost)\.load\.(.+)$`, 2, []string{"collectd.localhost.load.shortterm", "collectd.localhost.load.midterm"}},
+	{`^stats\.gauges\.[a-z]$`, 0, []string{"stats.gauges.x", "stats.gauges.y"}},
+}
+
+func isNameClass(v string) bool {
+	return v == "emptyexp" || v == "spacename" || v == "dotsname" || v == "longname"
+}
+
+// the replacement / output format of a name class; toml: any byte may occur (the command syntax splits at spaces)
+func (r rnd) nameRepl(cls string, groups int, toml bool) string {
+	// references to groups the regex does not have expand to nothing ("$1x" and "$1_" name the groups "1x" and "1_")
+	missing := []string{fmt.Sprintf("${%d}", groups+1), fmt.Sprintf("$%d", groups+1+r.Intn(8)), "$nosuch", "${none}", "$1x", "$1_",
+		fmt.Sprintf("${%d}${%d}", groups+1, groups+2)}
+	switch cls {
+	case "emptyexp":
+		if toml && r.Intn(3) == 0 {
+			return ""
+		}
+		return r.pick(missing)
+	case "spacename":
+		ws := r.pick([]string{"\t", "\t", "\v", "\f", "\r", "\u00a0", "\u0085"})
+		if toml {
+			ws = r.pick([]string{" ", " ", "\n", "\t", "  "})
+		}
+		switch r.Intn(4) {
+		case 0:
+			return "a" + ws + "b"
+		case 1:
+			return "$0" + ws + "$0"
+		case 2:
+			if toml {
+				return ws + "lead.x"
+			}
+			return "x" + ws
+		}
+		return "new.name" + ws + "1" + ws + "2"
+	case "dotsname":
+		return r.pick([]string{".", "..", "...", "." + r.pick(missing) + ".", strings.Repeat(".", 200)})
+	}
+	// longname
+	if r.Intn(2) == 0 {
+		return strings.Repeat("$0.", 100+r.Intn(400)) + "end"
+	}
+	return r.long([]int{3000, 9000, 70000}[r.Intn(3)])
+}
+
+func (r rnd) nameRewriter(c *absCmd) (string, []string) {
+	nr := nameRules[r.Intn(len(nameRules))]
+	toml := c.Via == "toml"
+	old, names, max := "/"+nr.re+"/", nr.names, "-1"
+	nw := r.nameRepl(c.Val, nr.groups, toml)
+	if toml && c.Val == "emptyexp" && r.Intn(3) == 0 { // plain substring rewriter: the whole name replaced by nothing
+		old, names, nw, max = nr.names[0], nr.names[:1], "", r.pick([]string{"-1", "1"})
+	}
+	if !toml {
+		return "addRewriter " + old + " " + nw + " " + max, names
+	}
+	return "[[rewriter]]\n" + tomlKV("old", old, true, true) + tomlKV("new", nw, true, true) + tomlKV("max", max, true, false), names
+}
+
+func (r rnd) nameAgg(c *absCmd) (string, []string) {
+	nr := nameRules[r.Intn(len(nameRules))]
+	toml := c.Via == "toml"
+	outFmt := r.nameRepl(c.Val, nr.groups, toml)
+	fun := r.pick(funs)
+	cache := r.pick([]string{"", "true", "false"})
+	// interval 1s, wait 1s: a point stamped "now" is flushed at the next whole second
+	if !toml {
+		s := "addAgg " + fun + " regex=" + nr.re + " " + outFmt + " 1 1"
+		if cache != "" {
+			s += " cache=" + cache
+		}
+		if c.Flag {
+			s += " dropRaw=true"
+		}
+		return s, nr.names
+	}
+	s := "[[aggregation]]\n" + tomlKV("function", fun, true, true) + tomlKV("regex", nr.re, true, true) + tomlKV("format", outFmt, true, true) +
+		"interval = 1\nwait = 1\n"
+	if cache != "" {
+		s += "cache = " + cache + "\n"
+	}
+	if c.Flag {
+		s += "dropRaw = true\n"
+	}
+	return s, nr.names
 }
 
 func (r rnd) mod(c *absCmd, key string) string {
@@ -956,12 +1076,16 @@ func (r rnd) item(it *absItem) step {
 	st := step{Kind: "item", Item: it, End: "eof"}
 	switch it.Proto {
 	case "plain":
-		st.Chunks = chop(r, plainBytes(r, it.Cls))
+		if it.Cls != "rulematch" { // rulematch: rendered by the child (current timestamps)
+			st.Chunks = chop(r, plainBytes(r, it.Cls))
+		}
 		if r.Intn(4) == 0 {
 			st.End = "err"
 		}
 	case "pickle":
-		st.Chunks = chop(r, pickleBytes(r, it.Cls))
+		if it.Cls != "rulematch" {
+			st.Chunks = chop(r, pickleBytes(r, it.Cls))
+		}
 		if r.Intn(4) == 0 {
 			st.End = "err"
 		}
@@ -1004,7 +1128,13 @@ func (r rnd) item(it *absItem) step {
 
 // concretise renders one abstract history; deterministic in (seed, h)
 func concretise(seed int64, ac absCase) concCase {
-	r := rnd{rand.New(rand.NewSource(seed*1000003 + int64(ac.H)*7919 + 17))}
+	r := rnd{Rand: rand.New(rand.NewSource(seed*1000003 + int64(ac.H)*7919 + 17))}
+	for _, c := range ac.Cmds {
+		if isNameClass(c.Val) {
+			r.nofilter = true // what the rule produces must reach the destinations
+		}
+	}
+	var ruleNames []string
 	cc := concCase{H: ac.H, Keys: map[string]string{}}
 	for _, k := range []string{"k1", "k2"} {
 		cc.Keys[k] = fmt.Sprintf("%sh%d", k, ac.H)
@@ -1027,9 +1157,20 @@ func concretise(seed int64, ac absCase) concCase {
 		case "addBlack":
 			st.Text = r.addBlack(&c)
 		case "addRewriter":
-			st.Text = r.addRewriter(&c)
+			if isNameClass(c.Val) {
+				st.Text, st.Names = r.nameRewriter(&c)
+				ruleNames = append(ruleNames, st.Names...)
+			} else {
+				st.Text = r.addRewriter(&c)
+			}
 		case "addAgg":
-			st.Text = r.addAgg(&c)
+			if isNameClass(c.Val) {
+				st.Text, st.Names = r.nameAgg(&c)
+				st.IsAgg = true
+				ruleNames = append(ruleNames, st.Names...)
+			} else {
+				st.Text = r.addAgg(&c)
+			}
 		case "addRoute":
 			st.Text = r.addRoute(&c, key)
 		case "addGnet":
@@ -1050,7 +1191,14 @@ func concretise(seed int64, ac absCase) concCase {
 	}
 	for i := range ac.Items {
 		it := ac.Items[i]
-		cc.Steps = append(cc.Steps, r.item(&it))
+		st := r.item(&it)
+		if it.Cls == "rulematch" {
+			st.Names = ruleNames
+			if len(st.Names) == 0 { // no rule in the history: any well-formed names
+				st.Names = []string{r.pick(namePool), r.pick(namePool)}
+			}
+		}
+		cc.Steps = append(cc.Steps, st)
 	}
 	return cc
 }
